@@ -39,7 +39,7 @@ GDeliver  == \E i \in Members : \E m \in net :
                  /\ Log("Deliver", i, Wire(m), IF m.s = i THEN "echo" ELSE IF m.s \in Excluded THEN "intruder" ELSE "genuine")
 GDeliverDup == \E i \in Members : \E m \in net : DeliverDup(i, m) /\ Log("Deliver", i, Wire(m), "dup")
 \* one random forged message per receiver and step (keeps the simulation from spending the whole budget at once)
-GDeliverForged == \E i \in Operating : \E m \in {RandomElement(Forged(i))} : DeliverForged(i, m) /\ Log("Deliver", i, Wire(m), "forged")
+GDeliverForged == \E i \in Operating : \E m \in {RandomElement(Forged(i))} : RandomElement(1..4) = 1 /\ DeliverForged(i, m) /\ Log("Deliver", i, Wire(m), "forged")
 
 GNext == GStart \/ GInitiate \/ GTransition \/ GFinish \/ GDeliver \/ GDeliverDup \/ GDeliverForged
 GSpec == GInit /\ [][GNext]_gvars
@@ -56,6 +56,14 @@ Emit == Terminal =>
                                mis |-> [i \in Members |-> SetToSeq(mis[i])],
                                keyOk |-> [i \in Members |-> key[i] = Expected]])>>,
              "behaviours.ndjson")
+
+\* the whole injected alphabet with the specification's admission decision,
+\* written once (the harness probes every real state of every member with it)
+EmitProbes == (log = <<>>) =>
+    CSVWrite("%1$s", <<ToJson([n |-> N, excluded |-> SetToSeq(Excluded),
+                               probes |-> SetToSeq(UNION {{[i |-> i, m |-> Wire(m), admit |-> Admit(i, m)] :
+                                                             m \in Forged(i) \cup {Genuine(t, i) : t \in MsgTypes}} : i \in Operating})])>>,
+             "probes.ndjson")
 
 \* stop a simulated behaviour once it was emitted / bound its length
 StopAfterEmit == ~Terminal /\ Len(log) < MaxLog + 60
